@@ -344,6 +344,9 @@ func (p *Prog) ServerHandlers(ifaceName string) map[string]map[string]*ssa.Funct
 				m := iface.Method(i)
 				f := p.MethodOf(impl, m.Name())
 				if f != nil && !p.IsGenerated(f) && f.Blocks != nil {
+					if ifaceName == "MsgServer" {
+						f = p.thinHandlerBody(f)
+					}
 					hs[m.Name()] = f
 				}
 			}
